@@ -25,6 +25,27 @@ def _uses(node) -> list[str]:
     return sorted(out)
 
 
+NO_GUARD = {"present": False, "cond_uses": [], "consts": [], "strict": False, "then_uses": [], "else_uses": []}
+
+
+def _py_guard(val) -> dict:
+    """Outermost selection in a stored expression: numpy.where(c, a, b) or (a if c else b)."""
+    for n in ast.walk(val):  # breadth first: the outermost one is met first
+        cond = None
+        if isinstance(n, ast.Call) and isinstance(n.func, ast.Attribute) and n.func.attr == "where" and len(n.args) == 3:
+            cond, a, b = n.args
+        elif isinstance(n, ast.IfExp):
+            cond, a, b = n.test, n.body, n.orelse
+        if cond is None:
+            continue
+        consts = sorted({repr(abs(float(c.value))) for c in ast.walk(cond)
+                         if isinstance(c, ast.Constant) and isinstance(c.value, (int, float)) and not isinstance(c.value, bool)})
+        ops = {type(o).__name__ for c in ast.walk(cond) if isinstance(c, ast.Compare) for o in c.ops}
+        return {"present": True, "cond_uses": _uses(cond), "consts": consts, "strict": bool(ops) and ops <= {"Gt", "Lt"},
+                "then_uses": _uses(a), "else_uses": _uses(b)}
+    return dict(NO_GUARD)
+
+
 def python_functions(code: str) -> dict[str, list[dict]]:
     tree = ast.parse(code)
     out = {}
@@ -56,12 +77,12 @@ def _py_body(fn: ast.FunctionDef) -> list[dict]:
         if isinstance(tgt, ast.Subscript) and isinstance(tgt.value, ast.Name) and tgt.value.id == "values":
             idx = tgt.slice
             slot = idx.value if isinstance(idx, ast.Constant) else -1
-            stmts.append({"k": "store", "slot": slot, "uses": _uses(val)})
+            stmts.append({"k": "store", "slot": slot, "uses": _uses(val), "guard": _py_guard(val)})
             continue
         if isinstance(tgt, ast.Name):
             m = re.fullmatch(r"_values_(\d+)", tgt.id)
             if m:
-                stmts.append({"k": "store", "slot": int(m.group(1)), "uses": _uses(val)})
+                stmts.append({"k": "store", "slot": int(m.group(1)), "uses": _uses(val), "guard": _py_guard(val)})
                 continue
             if (isinstance(val, ast.Subscript) and isinstance(val.value, ast.Name)
                     and val.value.id in ("states", "parameters", "missing_variables")
@@ -90,6 +111,49 @@ def _c_idents(s: str) -> list[str]:
     return sorted({t for t in re.findall(r"[A-Za-z_]\w*", s) if t not in C_WORDS})
 
 
+_C_NUM = re.compile(r"(?<![\w.])\d+\.?\d*(?:[eE][+-]?\d+)?")
+
+
+def _match_fwd(s: str, i: int) -> int:
+    """s[i] == '(' -> index of the matching ')'."""
+    depth = 0
+    for j in range(i, len(s)):
+        depth += {"(": 1, ")": -1}.get(s[j], 0)
+        if depth == 0:
+            return j
+    raise ValueError("unbalanced")
+
+
+def _c_guard(val: str) -> dict:
+    """Outermost (cond) ? (a) : (b) of a stored C expression."""
+    q = val.find("?")
+    if q < 0:
+        return dict(NO_GUARD)
+    try:
+        j = q - 1
+        while val[j] == " ":
+            j -= 1
+        assert val[j] == ")"
+        depth, i = 0, j
+        while True:
+            depth += {")": 1, "(": -1}.get(val[i], 0)
+            if depth == 0:
+                break
+            i -= 1
+        cond = val[i + 1:j]
+        a0 = val.index("(", q)
+        a1 = _match_fwd(val, a0)
+        c = val.index(":", a1)
+        b0 = val.index("(", c)
+        b1 = _match_fwd(val, b0)
+    except (AssertionError, ValueError, IndexError):
+        return {"present": True, "cond_uses": ["?"], "consts": [], "strict": False, "then_uses": [], "else_uses": []}
+    consts = sorted({repr(abs(float(t))) for t in _C_NUM.findall(cond)})
+    ops = set(re.findall(r"[<>]=?|[!=]=", cond))
+    return {"present": True, "cond_uses": _c_idents(cond), "consts": consts, "strict": bool(ops) and ops <= {">", "<"},
+            "then_uses": _c_idents(val[a0:a1 + 1]), "else_uses": _c_idents(val[b0:b1 + 1])}
+
+
 def c_functions(code: str) -> dict[str, dict]:
     code = re.sub(r"//[^\n]*", "", code)
     code = re.sub(r"/\*.*?\*/", "", code, flags=re.S)
@@ -114,7 +178,8 @@ def c_functions(code: str) -> dict[str, dict]:
                 continue
             mm = re.fullmatch(r"(\w+)\[(\d+)\]\s*=\s*(.*)", s)
             if mm:
-                stmts.append({"k": "store", "array": mm.group(1), "slot": int(mm.group(2)), "uses": _c_idents(mm.group(3))})
+                stmts.append({"k": "store", "array": mm.group(1), "slot": int(mm.group(2)), "uses": _c_idents(mm.group(3)),
+                              "guard": _c_guard(mm.group(3))})
                 continue
             mm = re.fullmatch(r"(const\s+)?double\s+(\w+)\s*=\s*(.*)", s)
             if mm:
